@@ -1968,6 +1968,9 @@ class H2Connection:
         if SettingCodes.MAX_FRAME_SIZE in changes:
             setting = changes[SettingCodes.MAX_FRAME_SIZE]
             self.max_inbound_frame_size = setting.new_value
+            # The frames that follow the ACK in the data we are processing
+            # right now are already subject to the new limit.
+            self.incoming_buffer.max_frame_size = setting.new_value
 
         if SettingCodes.HEADER_TABLE_SIZE in changes:
             setting = changes[SettingCodes.HEADER_TABLE_SIZE]
